@@ -25,6 +25,7 @@ def pick_scheme(rng):
 
 
 class Pick(Suite):
+    seasoned_rate = 0.2      # share of the cases run on a PickAPerm object that has served before (algos.seasoned)
     name = "pickaperm"
     imports = ["Scheme", "Rank", "Borda", "PickAPerm", "Judge.JC10"]
     judge = "judge_pick"
@@ -65,6 +66,15 @@ class Pick(Suite):
             free_ties = rng.choice([[[0.0, 1.0, 0.0, 0.0, 0.0, 0.0], [0.0, 0.0, 0.0, 0.0, 0.0, 0.0]],
                                     [[0.0, 2.0, 0.0, 0.0, 1.0, 0.5], [0.0, 0.0, 0.0, 1.0, 1.0, 0.0]]])
             cases.append({"one": rng.random() < 0.3, "s": free_ties, "D": D})
+        # complete datasets under schemes whose penalties have very different magnitudes (all exactly representable): the scores of two
+        # input rankings are huge and differ by one unit - a genuine difference, however small relatively
+        for _ in range(80 if tier == "quick" else 800):
+            big = rng.choice([1e6, 2.0 ** 22, 1e7])
+            s = rng.choice([[[0.0, big, 1.0, 0.0, big, 1.0], [1.0, 1.0, 0.0, 1.0, 1.0, 0.0]], [[0.0, 1.0, big, 0.0, 1.0, 1.0], [big, big, 0.0, 1.0, 1.0, 0.0]],
+                            [[0.0, big, big + 1, 0.0, big, 1.0], [big, big, 0.0, 1.0, 1.0, 0.0]]])
+            n = rng.randint(3, 6)
+            D = [gen.random_ranking(rng, list(range(n)), 1.0, rng.choice([0.8, 0.6, 0.4])) for _ in range(rng.randint(3, 6))]
+            cases.append({"one": rng.random() < 0.5, "s": s, "D": D})
         # datasets with a past (PickAPerm and the other readers ran, then elements were removed in place): judged on the dataset as it is
         for _ in range(80 if tier == "quick" else 800):
             D = gen.random_dataset(rng, 7, 5)
@@ -109,9 +119,6 @@ class Pick(Suite):
                 D = D + [[list(b) for b in D[0]]] * rng.randint(1, 2)
             rng.shuffle(D)
             cases.append({"one": rng.random() < 0.5, "s": pick_scheme(rng), "D": D, "names": [names[i] for i in range(n)]})
-        for c in cases:
-            if rng.random() < 0.2:
-                c["seasoned"] = True      # the PickAPerm object has served before the judged call (algos.seasoned)
         return cases
 
     def run(self, case):
@@ -147,7 +154,6 @@ class Pick(Suite):
     def stats(self, case, out, acc):
         k = ("complete" if out["complete"] else "incomplete") + (":refused" if "err" in out else ":ok")
         acc[k] = acc.get(k, 0) + 1
-        acc["seasoned_algorithm_object"] = acc.get("seasoned_algorithm_object", 0) + int(bool(case.get("seasoned")))
         acc["names_with_separators"] = acc.get("names_with_separators", 0) + int(bool(case.get("names")))
         if "cons" in out:
             acc["several_returned"] = acc.get("several_returned", 0) + int(len(out["cons"]) > 1)
